@@ -710,6 +710,14 @@ impl<Tx: Debug + ProstMessage + Default, Rx: Debug + ProstMessage + Default> Cha
                 Ok(bytes_written) => {
                     self.back_buf.consume(bytes_written);
                 }
+                // a signal is not a failure: try again
+                Err(e) if e.kind() == ErrorKind::Interrupted => continue,
+                // A send timeout leaves part of the frame unsent in the back buffer
+                // with nobody armed to flush it: reporting success here would lose
+                // the message silently.
+                Err(e) if matches!(e.kind(), ErrorKind::WouldBlock | ErrorKind::TimedOut) => {
+                    return Err(ChannelError::Write(e));
+                }
                 Err(_) => return Ok(()), // are we sure?
             }
         }
